@@ -12,7 +12,7 @@ Long == [i \in 1 .. 70 |-> "é"] \o <<"x">>
 Long3 == [i \in 1 .. 70 |-> "€"] \o <<"y">>          \* 211 bytes: three-byte characters (a row built from it exceeds any 8 KiB buffer at an odd offset)
 NP == << <<"a">>, <<"\"">>, <<",">>, <<"\t">>, <<"\n">>, <<"<">>, <<">">>, <<"&">>, <<"'">>, <<"\\">>, <<"é">>, <<"😀">>, <<"␁">>,
          <<"\"", ",">>, <<"<", "&">>, <<"a", "\"", "b">>, <<"&", "l", "t", ";">>, <<"x", ",", "y">>, <<" ", "a", " ">>, <<"\r">>, Long,
-         <<"<", "t", "d", ">">>, <<"\"", "\"">>, <<"b", "\n", "c">>, Long3 >>
+         <<"<", "t", "d", ">">>, <<"\"", "\"">>, <<"b", "\n", "c">>, <<"a", " ", " ", "b">>, <<" ", " ">>, Long3 >>
 NN == Len(NP)
 (* world w: 0 = empty directory; 1..NN one file; NN+1..2*NN three files *)
 Names(w) == IF w = 0 THEN <<>> ELSE IF w <= NN THEN <<NP[w]>>
